@@ -8,7 +8,7 @@ VARIABLES g, n
 Init == n = 0 /\ \E i \in 1..Len(StartSeq) : g = StartSeq[i]
 NoArg == [ct |-> ""]
 Emit(act, arg) == PrintT(ToJson([k |-> "CASE", start |-> g, steps |-> <<[act |-> act, arg |-> arg]>>]))
-Acts == {"force2d","reverse","swapxy","asmulti","mkgc1","snap0","densify","wkb","wkt","forcecw","forceccw","viactor"}
+Acts == {"force2d","reverse","swapxy","asmulti","mkgc1","snap0","densify","wkb","wkt","forcecw","forceccw","viactor","geojson"}
 Step == /\ n < MaxOps /\ n' = n + 1
         /\ \/ \E a \in Acts : g' = Apply(a, NoArg, g) /\ Emit(a, NoArg)
            \/ \E ct \in CTs : g' = Force(g, ct) /\ Emit("force", [ct |-> ct])
